@@ -7,8 +7,11 @@ import (
 	"bytes"
 	"encoding/json"
 	"fmt"
+	"go/parser"
+	"go/token"
 	"sort"
 	"strconv"
+	"strings"
 
 	"github.com/dave/jennifer/jen"
 )
@@ -201,7 +204,7 @@ func ReplayHistory(tw *TraceWriter, id int, h []Action) {
 	if h[0].Canonical != "" {
 		canonq = strconv.Quote(h[0].Canonical)
 	}
-	tw.Emit(Rec{"ev": "New", "trace": id, "headers": cmtNodes(h[0].Headers), "comments": cmtNodes(h[0].Comments), "canonicalq": canonq, "local": h[0].Local, "prefix": h[0].Prefix, "preamble": preNodes, "predoc": predoc,
+	tw.Emit(Rec{"ev": "New", "trace": id, "headers": cmtNodes(h[0].Headers), "comments": cmtNodes(h[0].Comments), "canonicalq": canonq, "canonical": h[0].Canonical, "local": h[0].Local, "prefix": h[0].Prefix, "preamble": preNodes, "predoc": predoc,
 		"paths": info, "sorted": allPaths, "pkgname": func() string {
 			if h[0].Name == "" {
 				return "main"
@@ -282,7 +285,8 @@ func ReplayHistory(tw *TraceWriter, id int, h []Action) {
 			if h[0].Light {
 				rawstatus, rawtext, obsBody = "skip", "", []*Node{}
 			}
-			tw.Emit(Rec{"ev": "Render", "c01": c01, "status": rA.status, "rawstatus": rawstatus, "specs": specs, "refs": refs, "bare": bare,
+			c15f := fileCommentFacts(rA, h[0])
+			tw.Emit(Rec{"ev": "Render", "c01": c01, "c15f": c15f, "status": rA.status, "rawstatus": rawstatus, "specs": specs, "refs": refs, "bare": bare,
 				"raw": rawtext, "out": Hash(rA.out), "table": tableOf(fB), "parses": parses, "body": obsBody,
 				"fmteq": rA.status == "nil" && fmok && bytes.Equal(fm, rA.out), "fmtok": fmok})
 			names := map[string]int{}
@@ -380,4 +384,83 @@ func cmdImports(args []string) {
 		}
 	}
 	tw.Close(args[1])
+}
+
+// fileCommentFacts measures the file-level comment placement of a formatted output (C15): the package doc is exactly
+// the PackageComment texts, no HeaderComment text is part of it (but every header is present above it), and the
+// canonical import path is a well-formed annotation on the package clause.
+func fileCommentFacts(r renderResult, a Action) Rec {
+	out := Rec{"on": false, "docok": true, "headok": true, "canonok": true}
+	if r.status != "nil" || (len(a.Headers) == 0 && len(a.Comments) == 0 && a.Canonical == "") {
+		return out
+	}
+	fset := token.NewFileSet()
+	af, err := parser.ParseFile(fset, "", r.out, parser.ParseComments)
+	if err != nil {
+		return out
+	}
+	out["on"] = true
+	// gofmt reflows doc comments (blank // lines, indentation of code blocks): compare the text content only
+	doc := ""
+	if af.Doc != nil {
+		for _, c := range af.Doc.List {
+			doc += commentContent(c.Text)
+		}
+	}
+	want := ""
+	for _, c := range a.Comments {
+		want += commentContent(CommentText(c))
+	}
+	out["docok"] = doc == want
+	headok := true
+	for _, hc := range a.Headers {
+		w := commentContent(CommentText(hc))
+		found := false
+		for _, g := range af.Comments {
+			if g == af.Doc || g.Pos() > af.Package {
+				continue
+			}
+			t := ""
+			for _, c := range g.List {
+				t += commentContent(c.Text)
+			}
+			if strings.Contains(t, w) {
+				found = true
+			}
+		}
+		if !found {
+			headok = false
+		}
+	}
+	out["headok"] = headok
+	if a.Canonical != "" {
+		canonok := false
+		line := fset.Position(af.Package).Line
+		for _, g := range af.Comments {
+			for _, c := range g.List {
+				if fset.Position(c.Pos()).Line == line && strings.HasPrefix(c.Text, "// import ") {
+					if p, err := strconv.Unquote(strings.TrimSpace(strings.TrimPrefix(c.Text, "// import "))); err == nil && p == a.Canonical {
+						canonok = true
+					}
+				}
+			}
+		}
+		out["canonok"] = canonok
+	}
+	return out
+}
+
+// commentContent removes the comment markers and all white space from a comment.
+func commentContent(c string) string {
+	var b strings.Builder
+	if strings.HasPrefix(c, "/*") {
+		c = strings.TrimSuffix(strings.TrimPrefix(c, "/*"), "*/")
+		return StripSpace(c)
+	}
+	for _, line := range strings.Split(c, "\n") {
+		line = strings.TrimSpace(line)
+		line = strings.TrimPrefix(line, "//")
+		b.WriteString(line)
+	}
+	return StripSpace(b.String())
 }
